@@ -19,28 +19,29 @@ const (
 )
 
 type MAlloc struct {
-	Key          string
-	App          string
-	Res          Res
-	Priority     int32
-	Placeholder  bool
-	TaskGroup    string
-	RequiredNode string
-	PreemptSelf  bool
-	PreemptOther bool
-	Originator   bool
-	Foreign      bool
-	Status       string
-	Node         string
-	RMPlaced     bool   // bound by the shim itself (recovery / externally placed)
-	RelType      string // termination type of the announced, unconfirmed release
-	Announced    int    // how often the core announced the pending release
-	SubmitStep   int
-	BoundStep    int
-	EverBound    bool
-	RejectReason string
-	ReleaseSent  bool // the shim sent a release for it (in flight or processed)
-	WasBound     bool // was bound when the shim sent its release
+	Key                string
+	App                string
+	Res                Res
+	Priority           int32
+	Placeholder        bool
+	TaskGroup          string
+	RequiredNode       string
+	PreemptSelf        bool
+	PreemptOther       bool
+	Originator         bool
+	Foreign            bool
+	Status             string
+	Node               string
+	RMPlaced           bool   // bound by the shim itself (recovery / externally placed)
+	RelType            string // termination type of the announced, unconfirmed release
+	Announced          int    // how often the core announced the pending release
+	SubmitStep         int
+	BoundStep          int
+	EverBound          bool
+	RejectReason       string
+	ReleaseSent        bool // the shim sent a release for it (in flight or processed)
+	ReleasedDuringSwap bool // the shim released the ask while the core had it linked to a placeholder as its replacement
+	WasBound           bool // was bound when the shim sent its release
 }
 
 type MApp struct {
@@ -135,6 +136,16 @@ type Shim struct {
 	minimal     bool // race build: record as little as possible
 	schedStates int
 	lastPredOK  map[string]bool
+	Tainted     map[string]string // application -> known in-flight swap trigger it went through
+}
+
+func (s *Shim) taint(app, kind string) {
+	if s.Tainted == nil {
+		s.Tainted = map[string]string{}
+	}
+	if _, ok := s.Tainted[app]; !ok {
+		s.Tainted[app] = kind
+	}
 }
 
 type Violation struct {
@@ -152,6 +163,12 @@ func NewShim(c *conductorT, seed uint64) *Shim {
 
 func (s *Shim) violate(prop, clause, sig, format string, args ...any) {
 	v := Violation{Prop: prop, Clause: clause, Msg: fmt.Sprintf(format, args...), Step: s.Step, Sig: prop + ":" + clause + ":" + sig}
+	for _, a := range reAppID.FindAllString(v.Msg, -1) {
+		if k, ok := s.Tainted[a]; ok {
+			v.Sig += "@" + k
+			break
+		}
+	}
 	s.violations = append(s.violations, v)
 }
 
@@ -343,7 +360,11 @@ func (s *Shim) onNew(a *si.Allocation) {
 			// the shim's release may still be in the core's inbound queue: legal only if not yet processed,
 			// which the driver decides at the quiescent point (releaseInFlight cleared there)
 			if !s.releaseInFlight(m.Key) {
-				s.violate("C04", "new-after-release", "", "allocation %s bound after the shim released the ask and the core processed that", m.Key)
+				detail := ""
+				if m.ReleasedDuringSwap {
+					detail = "ask-released-during-swap"
+				}
+				s.violate("C04", "new-after-release", detail, "allocation %s bound after the shim released the ask and the core processed that", m.Key)
 			}
 		} else {
 			s.violate("C04", "new-not-outstanding", "", "allocation %s bound but the ask is not outstanding (status gone: %s)", m.Key, m.RejectReason)
@@ -415,7 +436,12 @@ func (s *Shim) onReleased(r *si.AllocationRelease) {
 			// a repeat is allowed only until the shim has confirmed
 			m.Announced++
 			if m.RelType != r.TerminationType.String() {
-				s.violate("C04", "release-type-changed", "", "%s announced as %s while %s is unconfirmed", m.Key, r.TerminationType, m.RelType)
+				// a repeat with another termination type: the statement allows repeats until confirmed and says nothing about the type
+				s.faults["probe_release_type_changed"]++
+				if m.RelType == si.TerminationType_PLACEHOLDER_REPLACED.String() && r.TerminationType == si.TerminationType_TIMEOUT {
+					// the placeholder timeout fired while a replacement was waiting for its confirmation
+					s.taint(m.App, "swap-timeout")
+				}
 			}
 		case stGone:
 			if !s.releaseInFlight(m.Key) && !s.confirmInFlight(m.Key) {
